@@ -36,7 +36,11 @@ def marker_rows(ctx, cfg):
     pd = f.postdominators()
     cands = [b for b in pd.get(sw, set()) if b != sw and b < len(f.blocks)]
     join = max(cands, key=lambda b: len(pd[b])) if cands else None
-    ev = paths.Evaluator(c, effects=ctx.effects(cfg), stop_blocks=[join] if join is not None else [])
+    # helper methods of the bit writer (e.g. an extracted "put empty stored block") are looked into; the primitives are the alphabet
+    prim = ("put_bits", "put_bits_no_flush", "pad_to_bytes", "is_byte_aligned")
+    helpers = [g.name for g in c.fns.values() if "OutputBufferOxide" in g.name and g.kind != "promoted" and
+               g.name.split("::")[-1] not in prim and "{closure" not in g.name]
+    ev = paths.Evaluator(c, effects=ctx.effects(cfg), stop_blocks=[join] if join is not None else [], inline=helpers)
     rows = ev.run(f, start_bb=start)
     return f, rows, join
 
